@@ -42,6 +42,11 @@ func newCAS(rng *rand.Rand, storage string, size int, tag string, multi bool) *o
 	if multi {
 		choice = 5
 	}
+	if size > 5*lib.MiB/2 {
+		// objects beyond the largest ordinary size exist only to be refused for
+		// their size: the cheap encodings will do
+		choice = 8 + rng.IntN(2)
+	}
 	switch {
 	case choice < 4:
 		lv := 1 + rng.IntN(4)
